@@ -29,8 +29,11 @@ fn arg_u64(args: &[String], name: &str, default: u64) -> u64 {
 /// initialised state (hash seeds of dependencies, lazy statics, regex caches) is identical in
 /// every process whatever it runs afterwards.
 pub fn warm_up() {
-    let plan = props::gen_plan("C08", 0x57A2_7000);
-    let _ = props::run_plan(&plan);
+    let _ = props::run_plan(&props::warm_up_plan());
+    for (prop, seed) in [("C08", 0x57A2_7000u64), ("C17", 0x57A2_7017), ("C11", 0x57A2_7011), ("C04", 0x57A2_7004), ("C05", 0x57A2_7005), ("C13", 0x57A2_7013)] {
+        let plan = props::gen_plan(prop, seed);
+        let _ = props::run_plan(&plan);
+    }
 }
 
 fn main() {
@@ -40,6 +43,16 @@ fn main() {
     recursive::set_minimum_stack_size(0);
     let args: Vec<String> = std::env::args().collect();
     let cmd = args.get(1).map(|s| s.as_str()).unwrap_or("help");
+    if cmd != "check" && cmd != "selftest-determinism" {
+        // Processes that execute the database get a fixed address-space budget: a length field read
+        // from a damaged file that is accepted as valid then fails its allocation at once (abort,
+        // reported as `process_abort:*`, the same in a replay) instead of inviting the OOM killer
+        // at a moment that depends on what the other 15 workers are doing.
+        let lim = libc::rlimit { rlim_cur: 6 << 30, rlim_max: 6 << 30 };
+        unsafe {
+            libc::setrlimit(libc::RLIMIT_AS, &lim);
+        }
+    }
     match cmd {
         "worker" => {
             warm_up();
